@@ -26,13 +26,25 @@ type history struct {
 	Segments [][]int   `json:"segments"`
 	Coins    []float64 `json:"coins"`
 	Pruning  bool      `json:"pruning"`
+	// HdrFirst: headers delivered (one InsertHeaderChain call each, in this order) before any block, as a
+	// header-first sync does; the header chain is then ahead of, and possibly on another branch than, the blocks
+	HdrFirst []int `json:"hdr_first,omitempty"`
+	// BigTD: the genesis total difficulty is 2^64-2, so the total difficulties of the first blocks straddle 2^64
+	BigTD bool `json:"big_td,omitempty"`
+}
+
+func envFor(big64 bool) *chainkit.Env {
+	if big64 {
+		return chainkit.NewEnvDifficulty(params.TestChainConfig, nil, new(big.Int).Sub(new(big.Int).Lsh(big.NewInt(1), 64), big.NewInt(2)))
+	}
+	return chainkit.NewEnv(params.TestChainConfig, nil)
 }
 
 type outcome struct {
-	fails    []string
+	fails     []string
 	coinsUsed int
-	headSeq  string
-	imports  int
+	headSeq   string
+	imports   int
 }
 
 // runHistory executes one arrival history on a fresh chain and checks the C02 invariant after every
@@ -55,6 +67,12 @@ func runHistory(env *chainkit.Env, t *chaintree.Tree, h history) outcome {
 	imported := make([]bool, n)
 	prevHeadTD := new(big.Int).Set(t.GenTD)
 	gen := env.Genesis.Hash()
+	for _, i := range h.HdrFirst {
+		if _, err := bc.InsertHeaderChain([]*types.Header{t.Blocks[i].Header()}, 1); err != nil {
+			o.fails = append(o.fails, fmt.Sprintf("InsertHeaderChain rejected the valid header of node %d: %v", i, err))
+			return o
+		}
+	}
 	for si, seg := range h.Segments {
 		var blocks types.Blocks
 		for _, i := range seg {
@@ -117,6 +135,14 @@ func runHistory(env *chainkit.Env, t *chaintree.Tree, h history) outcome {
 	return o
 }
 
+// hdrMax: trees up to this size are also run with all headers delivered first
+func hdrMax(tier string) int {
+	if tier == "thorough" {
+		return 4
+	}
+	return 3
+}
+
 func sizes(tier string) (maxN int, diffs []int64, maxSeg int) {
 	if tier == "thorough" {
 		return 5, []int64{1, 2, 3}, 3
@@ -169,7 +195,7 @@ func TestCheck(t *testing.T) {
 		if json.Unmarshal(b, &h) != nil {
 			ev.Broken("bad replay detail")
 		}
-		env := chainkit.NewEnv(params.TestChainConfig, nil)
+		env := envFor(h.BigTD)
 		tr := chaintree.NewBuilder(env).Build(chaintree.Shape{Parent: h.Parent, Diff: h.Diff})
 		o := runHistory(env, tr, h)
 		if len(o.fails) > 0 {
@@ -224,8 +250,8 @@ func worker(shard, nsh int) {
 	maxN, diffs, maxSeg := sizes(tier)
 	res := &ev.WorkerResult{Counters: map[string]int64{}}
 	classes := map[string]bool{}
-	env := chainkit.NewEnv(params.TestChainConfig, nil)
-	bld := chaintree.NewBuilder(env)
+	envs := []*chainkit.Env{envFor(false), envFor(true)}
+	blds := []*chaintree.Builder{chaintree.NewBuilder(envs[0]), chaintree.NewBuilder(envs[1])}
 	deadline := time.Now().Add(8 * time.Minute)
 	if tier == "thorough" {
 		deadline = time.Now().Add(50 * time.Minute)
@@ -239,59 +265,73 @@ outer:
 			if idx%nsh != shard {
 				continue
 			}
-			tr := bld.Build(s)
-			res.Counters["trees"]++
-			for _, pruning := range []bool{false, true} {
-				if pruning && tier != "thorough" && n > 3 {
-					continue
+			for ei, env := range envs {
+				if ei == 1 && n > 3 {
+					continue // total difficulties around 2^64: trees of up to 3 blocks
 				}
-				for _, order := range chaintree.Orders(s) {
-					for _, segs := range chaintree.Segmentations(s, order, maxSeg) {
-						// depth-first over coin scripts
-						stack := [][]float64{nil}
-						for len(stack) > 0 {
-							coins := stack[len(stack)-1]
-							stack = stack[:len(stack)-1]
-							h := history{Parent: s.Parent, Diff: s.Diff, Segments: segs, Coins: coins, Pruning: pruning}
-							o := runHistory(env, tr, h)
-							res.Evals++
-							res.Counters["histories"]++
-							res.Counters["insert_calls"] += int64(len(segs))
-							res.Counters["block_imports"] += int64(o.imports)
-							if len(o.fails) > 0 {
-								// deterministic? run twice more
-								for k := 0; k < 2; k++ {
-									if o2 := runHistory(env, tr, h); len(o2.fails) == 0 {
-										ev.Broken("C02 verdict flipped on re-run: %v", o.fails)
+				tr := blds[ei].Build(s)
+				res.Counters["trees"]++
+				for _, pruning := range []bool{false, true} {
+					if pruning && (ei == 1 || (tier != "thorough" && n > 3)) {
+						continue
+					}
+					for _, order := range chaintree.Orders(s) {
+						for hm := 0; hm < 2; hm++ {
+							var hdrFirst []int
+							if hm == 1 {
+								if pruning || n > hdrMax(tier) {
+									continue
+								}
+								hdrFirst = order
+							}
+							for _, segs := range chaintree.Segmentations(s, order, maxSeg) {
+								// depth-first over coin scripts
+								stack := [][]float64{nil}
+								for len(stack) > 0 {
+									coins := stack[len(stack)-1]
+									stack = stack[:len(stack)-1]
+									h := history{Parent: s.Parent, Diff: s.Diff, Segments: segs, Coins: coins, Pruning: pruning, HdrFirst: hdrFirst, BigTD: ei == 1}
+									o := runHistory(env, tr, h)
+									res.Evals++
+									res.Counters["histories"]++
+									res.Counters["insert_calls"] += int64(len(segs))
+									res.Counters["block_imports"] += int64(o.imports)
+									if len(o.fails) > 0 {
+										// deterministic? run twice more
+										for k := 0; k < 2; k++ {
+											if o2 := runHistory(env, tr, h); len(o2.fails) == 0 {
+												ev.Broken("C02 verdict flipped on re-run: %v", o.fails)
+											}
+										}
+										res.Violations = append(res.Violations, ev.Violation{
+											Scenario: "tree-import", Oracle: oracleOf(o.fails[0]), CaseID: fmt.Sprintf("n=%d", n),
+											Detail: map[string]interface{}{"history": h, "fails": o.fails, "tree": s.String()},
+										})
+										if len(res.Violations) >= 5 {
+											break outer
+										}
+									}
+									classes[hash64(fmt.Sprintf("%s|%s", s.String(), o.headSeq))] = true
+									if len(res.Samples) < 2 && n == maxN && len(coins) > 0 {
+										res.Samples = append(res.Samples, map[string]interface{}{"tree": s.String(), "segments": segs, "coins": coins, "heads": o.headSeq})
+									}
+									for i := len(coins); i < o.coinsUsed; i++ {
+										alt := make([]float64, i+1)
+										copy(alt, coins)
+										for j := len(coins); j < i; j++ {
+											alt[j] = 0.25
+										}
+										alt[i] = 0.75
+										stack = append(stack, alt)
 									}
 								}
-								res.Violations = append(res.Violations, ev.Violation{
-									Scenario: "tree-import", Oracle: oracleOf(o.fails[0]), CaseID: fmt.Sprintf("n=%d", n),
-									Detail: map[string]interface{}{"history": h, "fails": o.fails, "tree": s.String()},
-								})
-								if len(res.Violations) >= 5 {
-									break outer
-								}
-							}
-							classes[hash64(fmt.Sprintf("%s|%s", s.String(), o.headSeq))] = true
-							if len(res.Samples) < 2 && n == maxN && len(coins) > 0 {
-								res.Samples = append(res.Samples, map[string]interface{}{"tree": s.String(), "segments": segs, "coins": coins, "heads": o.headSeq})
-							}
-							for i := len(coins); i < o.coinsUsed; i++ {
-								alt := make([]float64, i+1)
-								copy(alt, coins)
-								for j := len(coins); j < i; j++ {
-									alt[j] = 0.25
-								}
-								alt[i] = 0.75
-								stack = append(stack, alt)
 							}
 						}
 					}
-				}
-				if time.Now().After(deadline) {
-					capped = true
-					break outer
+					if time.Now().After(deadline) {
+						capped = true
+						break outer
+					}
 				}
 			}
 		}
